@@ -93,7 +93,11 @@ func runC12(c *runCtx) {
 		starts := []string{"<!DOCTYPE html>", "<!doctype HTML>\n<html>", "<html>", "<HTML lang=\"en\">", "<head>", "<!DOCTYPE html><html><head>"}
 		sb.WriteString(starts[r.Intn(len(starts))])
 		for k := r.Intn(4); k > 0; k-- {
-			switch r.Intn(6) {
+			switch r.Intn(8) {
+			case 6: // the head is over before the declaration comes: the prescan does not care where a meta stands
+				sb.WriteString("<head><title>t</title></head>")
+			case 7:
+				sb.WriteString("</head><body><p>text</p>")
 			case 0:
 				sb.WriteString("<!-- <meta charset=\"fake-comment\"> -->")
 			case 1:
